@@ -19,41 +19,61 @@ import (
 	"github.com/prometheus/common/model"
 )
 
-// index contains map of fingerprints to fingerprints.
+// index contains map of fingerprints to sets of fingerprints.
 // The keys are fingerprints of the equal labels of source alerts.
-// The values are fingerprints of the source alerts.
+// The values are the fingerprints of all cached source alerts with those equal
+// labels: whether a target is inhibited depends on whether any of them
+// currently fires, so all of them have to be remembered.
 // For more info see comments on inhibitor and InhibitRule.
 type index struct {
 	mtx   sync.RWMutex
-	items map[model.Fingerprint]model.Fingerprint
+	items map[model.Fingerprint]map[model.Fingerprint]struct{}
 }
 
 func newIndex() *index {
 	return &index{
-		items: make(map[model.Fingerprint]model.Fingerprint),
+		items: make(map[model.Fingerprint]map[model.Fingerprint]struct{}),
 	}
 }
 
-func (c *index) Get(key model.Fingerprint) (model.Fingerprint, bool) {
+// Get returns the fingerprints of the source alerts stored under key.
+func (c *index) Get(key model.Fingerprint) []model.Fingerprint {
 	c.mtx.RLock()
 	defer c.mtx.RUnlock()
 
-	fp, ok := c.items[key]
-	return fp, ok
+	fps := make([]model.Fingerprint, 0, len(c.items[key]))
+	for fp := range c.items[key] {
+		fps = append(fps, fp)
+	}
+	return fps
 }
 
-func (c *index) Set(key, value model.Fingerprint) {
+// Add stores value under key.
+func (c *index) Add(key, value model.Fingerprint) {
 	c.mtx.Lock()
 	defer c.mtx.Unlock()
 
-	c.items[key] = value
+	set, ok := c.items[key]
+	if !ok {
+		set = make(map[model.Fingerprint]struct{})
+		c.items[key] = set
+	}
+	set[value] = struct{}{}
 }
 
-func (c *index) Delete(key model.Fingerprint) {
+// Delete removes value from the set stored under key.
+func (c *index) Delete(key, value model.Fingerprint) {
 	c.mtx.Lock()
 	defer c.mtx.Unlock()
 
-	delete(c.items, key)
+	set, ok := c.items[key]
+	if !ok {
+		return
+	}
+	delete(set, value)
+	if len(set) == 0 {
+		delete(c.items, key)
+	}
 }
 
 func (c *index) Len() int {
